@@ -62,6 +62,7 @@ func init() {
 			"R7 a nil return happens only after the old key was destroyed or the previous primary version name was found empty. R5 Bootstrap: Finalize only after both signing steps succeeded, nil return ⇒ Finalize:ok. R6 the newly created key (operand derived from CreateNewSigningKeyVersion) is never destroyed once Finalize succeeded. R8 (shared with C11.R7) the storage-backed authority's certificate upload returns success after the gate only where the key version's manifest entry was found or appended, so a rotation retried after a fault cannot finalize a primary key that has no listed certificate. " +
 			"Every fault position of the property's quantifier is the :fail edge of one of the tracked calls; crash points between calls are covered by R1's ordering. " +
 			"R9 (= C11.R1/R2/R6) Finalize of the storage-backed authority writes the manifest last and never after a failed upload, and storage/ops.WriteFile returns nil only after Writer, Write and Close all succeeded — otherwise rotate.Key would destroy the old key although the new primary was not durably recorded. " +
+			"R13 the file-backed key manager persists a created key by replacing the key file wholly (O_TRUNC, or O_EXCL without taking 'exists' for success). " +
 			"R12 Signer.PublicKey implementations write nothing rooted at their receiver or in package-level state. " +
 			"R11 every implementation of ManagerInterface.CreateNewSigningKeyVersion returns success only after a key-creating call (Create*/Generate*) succeeded in that call. " +
 			"R10 context continuity: in the call closure of rotate.Key / rotate.Bootstrap no call receives a context rooted at context.Background()/TODO() (the operator's options, e.g. overwrite permission for the leftovers of a failed attempt, travel in the context). " +
@@ -342,6 +343,25 @@ func runC10(c *Ctx) {
 	// context.TODO) would silently drop them (for instance the permission to overwrite the leftovers of a failed
 	// attempt, on which the "later fault-free rotation succeeds" clause rests).
 	c.contextContinuity("R10", []*ssa.Function{key, boot})
+
+	// R13: a key manager that persists keys stores the key it just created. The file-opening primitives in the
+	// closures of the Create* methods of the file-backed manager replace the file wholly (or create it exclusively and
+	// fail if it exists): a retried rotation regenerates a key under the same deterministic name, and a persisted
+	// copy that silently stays the first attempt's key no longer matches the certificate after a restart.
+	{
+		var roots []*ssa.Function
+		for _, f := range c.P.RepoFunctions() {
+			if c.isTestFunc(f) || load.RelPkg(f) != "testing/nonprod/localkm" || f.Signature.Recv() == nil || f.Blocks == nil || f.Synthetic != "" || f.Parent() != nil {
+				continue
+			}
+			if strings.HasPrefix(f.Name(), "Create") {
+				roots = append(roots, f)
+			}
+		}
+		nOpen := c.wholeFileWrites("R13", roots)
+		c.S.Floor("R13", "key-creating methods of the file-backed key manager", 3, len(roots))
+		c.S.Floor("R13", "file-opening calls in their closures", 3, nOpen)
+	}
 
 	// R12: reading a key's public half does not write the signer. The certificate of a new key version is made from
 	// what Signer.PublicKey returns for its name; a PublicKey that keeps an answer (a per-name cache) returns the
